@@ -8,6 +8,7 @@ import (
 	"io"
 	"os"
 	"os/exec"
+	"path/filepath"
 	"sort"
 	"strings"
 	"time"
@@ -729,6 +730,12 @@ func runDB(cfg *config) {
 			id++
 			runLogCrashes(cfg, id, r.Fork())
 		}
+	case "c16":
+		n := 5 * cfg.scale
+		for i := 0; i < n; i++ {
+			id++
+			runCacheSizes(cfg, id, r.Fork(), cfg.tier == "thorough" && i%4 == 0)
+		}
 	case "c04":
 		n := 8 * cfg.scale
 		for i := 0; i < n; i++ {
@@ -1035,4 +1042,133 @@ func runFlushCrashes(cfg *config, id int, r *hx.Rng) {
 		d.dump()
 	}
 	cfg.st.Seen(fmt.Sprint(id), true)
+}
+
+// runCacheSizes (C16): one workload at the default cache capacity (written to the trace and compared
+// with the model) and again at small capacities; every operation's output must be identical.
+func runCacheSizes(cfg *config, id int, r *hx.Rng, big bool) {
+	// 1. the reference run: default capacity, flush after every statement
+	mark := cfg.tr.Mark()
+	o := histOpts{stmts: r.Range(30, 90), maxTables: 3, maxCols: 4, maxRows: 3, pFlush: 100, dumpEvery: 25, selectEvery: 5}
+	if big {
+		o = histOpts{stmts: 700, maxTables: 2, maxCols: 3, maxRows: 3, pFlush: 100, dumpEvery: 350, selectEvery: 70}
+	}
+	runHistory(cfg, id, r, o)
+	ref := cfg.tr.Since(mark)
+	var ops []string
+	for _, l := range ref {
+		if !strings.HasPrefix(l, ">") && !strings.HasPrefix(l, "~") && !strings.HasPrefix(l, "case ") && l != "roots" {
+			ops = append(ops, l)
+		}
+	}
+	refOut := groupOutputs(ref)
+	// 2. the same operations at small capacities
+	for _, cap := range []int{6, 8, 16, 64} {
+		tmp := filepath.Join(os.TempDir(), fmt.Sprintf("verif-c16-%d-%d.txt", os.Getpid(), cap))
+		sub := &config{seed: cfg.seed, tier: cfg.tier, dir: cfg.dir, rng: hx.NewRng(1), st: hx.NewStats(), tr: hx.NewTrace(tmp)}
+		replayDBCap(sub, 1, ops, cap)
+		sub.tr.Close()
+		b, _ := os.ReadFile(tmp)
+		os.Remove(tmp)
+		got := groupOutputs(strings.Split(strings.TrimRight(string(b), "\n"), "\n"))
+		cfg.tr.Op("capcheck %d", cap)
+		diff := ""
+		for i := range refOut {
+			if i >= len(got) {
+				diff = fmt.Sprintf("differs: run at capacity %d stopped after %d operations", cap, len(got))
+				break
+			}
+			if refOut[i] != got[i] {
+				a, b := refOut[i], got[i]
+				if strings.Contains(b, "err cacheFull") {
+					diff = "err cacheFull"
+					break
+				}
+				if len(a) > 160 {
+					a = a[:160]
+				}
+				if len(b) > 160 {
+					b = b[:160]
+				}
+				diff = fmt.Sprintf("differs at operation %d: default=[%s] cap%d=[%s]", i, a, cap, b)
+				break
+			}
+		}
+		switch {
+		case diff == "":
+			cfg.tr.Tilde("same")
+		case strings.Contains(diff, "err cacheFull"):
+			// the statement's dirty set does not fit this capacity: outside the property's quantifier
+			cfg.tr.Tilde("skipped: a statement's dirty pages exceed the capacity")
+			cfg.st.Inc(fmt.Sprintf("capacity.%d.skipped", cap))
+		default:
+			cfg.tr.Tilde(diff)
+		}
+		cfg.st.Inc(fmt.Sprintf("capacity.%d", cap))
+	}
+}
+
+// groupOutputs: per operation line, its op text and output lines joined (dirty bits masked:
+// flush timing relative to eviction is not part of the property).
+func groupOutputs(lines []string) []string {
+	var out []string
+	for _, l := range lines {
+		switch {
+		case strings.HasPrefix(l, "~"), strings.HasPrefix(l, "case "), l == "roots":
+		case strings.HasPrefix(l, ">"):
+			if len(out) > 0 {
+				out[len(out)-1] += "|" + l
+			}
+		default:
+			out = append(out, l)
+		}
+	}
+	return out
+}
+
+func replayDBCap(cfg *config, id int, lines []string, cap int) {
+	cfg.tr.Case(id)
+	d := &rdb{cfg: cfg, name: fmt.Sprintf("c%d", cap), cap: cap}
+	defer func() {
+		if d.rs != nil {
+			hx.Catch(func() { d.rs.VerifAbandon() })
+		}
+		os.RemoveAll("data/" + d.name)
+	}()
+	for _, l := range lines {
+		f := strings.Fields(l)
+		if len(f) == 0 || (d.rs == nil && f[0] != "createdb") {
+			continue
+		}
+		switch f[0] {
+		case "createdb":
+			d.createdb()
+		case "stmt":
+			d.stmt(unhex(f[1]))
+		case "insertv":
+			var cols []string
+			if f[2] != "-" {
+				for _, c := range strings.Split(f[2], ",") {
+					cols = append(cols, unhex(c))
+				}
+			}
+			var rows [][]interface{}
+			for _, rtxt := range strings.Split(strings.Join(f[3:], " "), "|") {
+				var row []interface{}
+				for _, v := range strings.Fields(rtxt) {
+					row = append(row, parseValStr(v))
+				}
+				rows = append(rows, row)
+			}
+			d.insertv(unhex(f[1]), cols, rows)
+		case "select":
+			d.selectAll(unhex(f[1]))
+		case "flush":
+			d.flush()
+		case "dump":
+			d.dump()
+		case "reopen":
+			d.reopen()
+		}
+	}
 }
